@@ -456,3 +456,13 @@ Example ex_run_wrapped_scripted_rows :
   run_wrapped_scripted (SBox [1]) [WMonitor] [[mk_episode 4 0 [mk_sstep 5 0 true false 0]]; [mk_episode 6 0 [mk_sstep 7 0 true false 0]]] [VReset]
   = [[PWReset [(0%Z, [1], [(4%Z, 1)])]]; [PWReset [(0%Z, [1], [(6%Z, 1)])]]].
 Proof. vm_compute. reflexivity. Qed.
+
+(* concatenation on the last axis interleaves the rows of the frames; transposition HWC -> CHW regroups the channels *)
+Example ex_tcat_last_rows :
+  tcat false [mk_tensor [2; 1] [1; 2]%Z; mk_tensor [2; 1] [3; 4]%Z; mk_tensor [2; 1] [5; 6]%Z] = mk_tensor [2; 3] [1; 3; 5; 2; 4; 6]%Z /\
+  tcat true [mk_tensor [2; 1] [1; 2]%Z; mk_tensor [2; 1] [3; 4]%Z] = mk_tensor [4; 1] [1; 2; 3; 4]%Z /\
+  rows (mk_tensor [3; 2] [1; 2; 3; 4; 5; 6]%Z) = [[1; 2]; [3; 4]; [5; 6]]%Z.
+Proof. repeat split; reflexivity. Qed.
+Example ex_ttranspose :
+  ttranspose (mk_tensor [1; 3; 2] [1; 2; 3; 4; 5; 6]%Z) = mk_tensor [2; 1; 3] [1; 3; 5; 2; 4; 6]%Z.
+Proof. reflexivity. Qed.
